@@ -56,6 +56,7 @@ def eval_case(case, rec):
         except model.ModelError as e:
             merr = e
         lerr = chain = None
+        n_failed = _failed_attempts(w, snapshot)
         try:
             with hyp.quiet_output():
                 config = w.config_with(ctx_obj)
@@ -119,6 +120,8 @@ def eval_case(case, rec):
             cl.append('invalid:' + merr.kind)
         if case.get('mutation'):
             cl.append('mutation:' + case['mutation'])
+        if n_failed:
+            cl.append('after-failed-attempts-in-this-process')
         ctx = case.get('context')
         multi = any(f.get('parts') for f in case['files'])
         if multi:
@@ -141,6 +144,25 @@ def eval_case(case, rec):
                 if any(len(counts.get(k, ())) >= 2 for k in gk & nk):
                     nt = True
         rec.case(case, nontrivial=nt, classes=cl, sample=engine.describe(case))
+
+
+def _failed_attempts(w, ctx_snapshot):
+    """The same process first tries to build the config while one of its files is missing (a typo, a file not yet
+    synced), one file at a time, each time with its own copy of the context.  Whatever those attempts do, the build
+    that follows with all files in place is judged like any other: a failed construction leaves nothing behind."""
+    from pathlib import Path
+    n = 0
+    for p in sorted(q for q in Path(w.cfgdir).rglob('*') if q.is_file())[:4]:
+        hidden = p.with_name(p.name + '.hidden')
+        p.rename(hidden)
+        try:
+            with hyp.quiet_output():
+                w.config_with(copy.deepcopy(ctx_snapshot)).chain()
+        except Exception:
+            n += 1
+        finally:
+            hidden.rename(p)
+    return n
 
 
 def _plain(o):
